@@ -15,7 +15,8 @@ PYINC = "/root/.pyenv/versions/3.12.1/include/python3.12"
 PY_ROWS = {"int_v", "long_v", "double_v", "bool_v", "enum_v", "int_pin", "int_pout", "int_pinout", "int_ref", "dbl_cref", "dbl_pout",
            "bool_pinout", "cstr_in", "str_cref", "str_ref_inout", "str_ref_out",
            # list-mode arrays and vectors, structs as classes (PY_array_arg: list, PY_struct_arg: class)
-           "arr_in", "arr_n", "arr_out", "out_n", "vec_in", "vec_out_alloc", "pt_v", "pt_pinout", "pt_cref"}
+           "arr_in", "arr_n", "arr_out", "out_n", "vec_in", "vec_out_alloc", "pt_v", "pt_pinout", "pt_cref",
+           "arrx_out", "dim_n", "dim_m"}
 PY_RESULTS = {"void", "int", "double", "bool", "enum", "cstr", "str_cref", "pt"}
 PT_Y = {"pt_v": 1.5, "pt_pinout": 2.5, "pt_cref": -0.5}
 SIZES = [4, 0, 1, 3]
@@ -53,6 +54,8 @@ def py_cases():
             continue
         if all(p["kind"] in PY_ROWS for p in c["params"]) and c["result"] in PY_RESULTS:
             out.append(c)
+    # a rank-2 output array whose extents are expressions (list mode: returned flat)
+    out.append(K.F("q5", "int", [K.P("arrx_out", "grid", m="n", m2="m"), K.P("dim_n", "n"), K.P("dim_m", "m")]))
     # an intent(out) parameter in front of a defaulted one, and a defaulted string
     out.append(K.F("q1", "int", [K.P("int_v", "a"), K.P("int_pout", "rem"), K.P("int_v", "b", default="2")]))
     out.append(K.F("q2", "double", [K.P("double_v", "x"), K.P("dbl_pout", "y"), K.P("int_v", "n", default="5"),
@@ -344,7 +347,7 @@ def run_plan(d, plan):
     start = 0
     crashes = {}
     while start < len(plan):
-        p = subprocess.run([common.PY, drv, pj, tf, str(start), d], cwd=d, env=dict(os.environ, VT_TRACE=tf),
+        p = subprocess.run([common.PY, drv, pj, tf, str(start), d], cwd=d, env=dict(os.environ, VT_TRACE=tf, MALLOC_CHECK_="3"),
                            stdout=subprocess.PIPE, stderr=subprocess.PIPE, text=True, timeout=600)
         if p.returncode == 0:
             break
@@ -360,7 +363,22 @@ def run_plan(d, plan):
             elif e.get("ev") == "PyReturn" and e["k"] == last:
                 last = -1
         if last < 0:
-            raise common.MachineryError("python driver failed outside a call: " + p.stderr[-500:])
+            # the interpreter died between two calls (typically glibc detecting a corrupted heap): the damage was
+            # done by a call that had already returned -- charge the last one that returned since the restart
+            done = -1
+            for line in open(tf):
+                try:
+                    e = json.loads(line)
+                except ValueError:
+                    continue
+                if e.get("ev") == "PyReturn":
+                    done = e["k"]
+            if done < start:
+                raise common.MachineryError("python driver failed outside a call: " + p.stderr[-500:])
+            crashes[done] = "interpreter died after this call had returned (exit %d): %s" % (
+                p.returncode, p.stderr.strip().split("\n")[-1][:200])
+            start = done + 1
+            continue
         crashes[last] = "exit %d: %s" % (p.returncode, p.stderr.strip().split("\n")[-1][:200])
         start = last + 1
     res = [None] * len(plan)
